@@ -669,6 +669,7 @@ def normalize(modules) -> Report:
     undo_renames(modules, known, rep)
     undo_attr_renames(modules, known, rep)
     n2.undo_param_renames(modules, known, rep)
+    n2.undo_local_renames(modules, known, rep)
     fold_constants(modules, known, rep)
     inline_helpers(modules, known, rep)
     n2.expand_ifexp(modules, known, rep)
